@@ -31,7 +31,8 @@ func init() {
 			"SAN variants (none/DNS/wildcard/IP only/mixed case) and colliding serials; for every certificate (graph members and fresh outsiders): VerifyTime at NotBefore-1s, NotBefore, +1s, " +
 			"middle, NotAfter-1s, NotAfter, +1s of the certificate and of up to two other chain members; Name from {\"\", matching, case/trailing-dot variants, wildcard hits and misses, IP literals, mismatch}; " +
 			"3 of 13 OneCRL/CRLSet model kinds per certificate (listed by issuer+serial, same issuer other serial, other issuer same serial, blocked subject+key, near-miss blocks, " +
-			"CRLSet keyed by a parent's / a non-parent's SPKI hash, blocked parent SPKI, combinations, none). Non-trivial = the certificate has at least one walked chain; " +
+			"CRLSet keyed by a parent's / a non-parent's SPKI hash, blocked parent SPKI, combinations, none), the interesting entries surrounded by decoy serials in ascending / descending / " +
+			"shuffled / duplicated order; each model reaches the verifier in one of three ways: wire encoding + Parse, the exported structs built directly in model order, or two parsed halves merged by appending. Non-trivial = the certificate has at least one walked chain; " +
 			"distinct by hash of (universe structure, certificate, time, name, revocation model)",
 		MinNontrivial:         20000,
 		MinNontrivialThorough: 600000,
@@ -72,6 +73,7 @@ var bucketName = []string{"current", "expired", "never"}
 
 type revVariant struct {
 	kind   int
+	supply int
 	one    *oneCRLModel
 	crl    *crlSetModel
 	oneLib *mozilla.OneCRL
@@ -182,29 +184,55 @@ func makeVariant(rng *rand.Rand, u *universe, s *certSpec, kind int) *revVariant
 		v.one = &oneCRLModel{}
 		v.crl = &crlSetModel{}
 	}
+	// surround the interesting entries with decoys in varied orders
+	var orders []string
+	if v.crl != nil {
+		for i := range v.crl.Lists {
+			var o string
+			v.crl.Lists[i].Serials, o = padSerials(rng, v.crl.Lists[i].Serials, s.Serial)
+			orders = append(orders, o)
+		}
+	}
+	if v.one != nil && len(v.one.Records) > 0 {
+		var recs []oneCRLRecord
+		for _, r := range v.one.Records {
+			recs = append(recs, r)
+			if !r.Blocked && rng.IntN(2) == 0 {
+				decoy, _ := padSerials(rng, nil, s.Serial)
+				for _, d := range decoy {
+					recs = append(recs, oneCRLRecord{IssuerDER: r.IssuerDER, Serial: d, note: fmt.Sprintf("decoy %x", d)})
+				}
+			}
+		}
+		if rng.IntN(2) == 0 {
+			rng.Shuffle(len(recs), func(i, j int) { recs[i], recs[j] = recs[j], recs[i] })
+		}
+		v.one.Records = recs
+	}
+	v.supply = rng.IntN(nSupplyModes)
 	var parts []string
 	if v.one != nil {
 		parts = append(parts, v.one.String())
 	}
 	if v.crl != nil {
-		parts = append(parts, v.crl.String())
+		parts = append(parts, v.crl.String()+fmt.Sprint(orders))
 	}
-	v.desc = fmt.Sprintf("kind%d %s", kind, strings.Join(parts, " "))
+	v.desc = fmt.Sprintf("kind%d supplied as %s: %s", kind, supplyName[v.supply], strings.Join(parts, " "))
 	return v
 }
 
-func (v *revVariant) parse() error {
+func (v *revVariant) parse(rng *rand.Rand) error {
 	if v.one != nil {
-		lib, err := mozilla.Parse(v.one.encode())
+		lib, err := v.one.supply(v.supply, rng)
 		if err != nil {
-			return fmt.Errorf("mozilla.Parse: %v", err)
+			return err
 		}
 		v.oneLib = lib
 	}
 	if v.crl != nil {
-		lib, err := google.Parse(v.crl.encode(), "verif")
+		lib, err := v.crl.supply(v.supply, rng)
 		if err != nil {
-			return fmt.Errorf("google.Parse: %v", err)
+			return err
 		}
 		v.crlLib = lib
 	}
@@ -361,7 +389,7 @@ func checkVerify(c *core.Ctx, rng *rand.Rand, u *universe, g *verifier.Graph, ve
 	var variants []*revVariant
 	for _, k := range kinds {
 		v := makeVariant(rng, u, s, k)
-		if err := v.parse(); err != nil {
+		if err := v.parse(rng); err != nil {
 			c.Violation("c12:revocation-set-rejected", fmt.Sprintf("%v for %s", err, v.desc), certID, baseInput(map[string]any{"revocation": v.desc}))
 			continue
 		}
@@ -383,7 +411,7 @@ func checkVerify(c *core.Ctx, rng *rand.Rand, u *universe, g *verifier.Graph, ve
 			if c.OnlyCase != "" && c.OnlyCase != caseID && c.OnlyCase != certID {
 				continue
 			}
-			extra := map[string]any{"verify_time": t.Format(time.RFC3339), "name": name, "revocation": rv.desc}
+			extra := map[string]any{"verify_time": t.Format(time.RFC3339), "name": name, "revocation": rv.desc, "supplied_as": supplyName[rv.supply]}
 			if rv.one != nil {
 				extra["onecrl_json"] = string(rv.one.encode())
 			}
@@ -573,6 +601,9 @@ func checkVerify(c *core.Ctx, rng *rand.Rand, u *universe, g *verifier.Graph, ve
 			}
 			if viaCRLSet {
 				c.Count("revoked_via_crlset", 1)
+			}
+			if rv.one != nil || rv.crl != nil {
+				c.Count("revocation_sets_supplied_as:"+supplyName[rv.supply], 1)
 			}
 			if !expRev && !viaCRLSet && (rv.one != nil || rv.crl != nil) {
 				c.Count("revocation_sets_not_listing", 1)
